@@ -522,6 +522,47 @@ def run(ctx, anchors=None):
                      "%s asserts `%s`, which reads session state (%s) that interactive commands (exec, stepping after an error) can bring into any shape: "
                      "a failed assertion aborts the debugger instead of failing the script" % (f.name, astq.estr(cond)[:80], ", ".join(sorted(roots))[:120]))
     ctx.floor("R15.11", n_asserts, 1, "assert sites inspected in the session driver")
+    # ---------------------------------------------------------------- R15.12 the verification context exists wherever it is used
+    ctx.rule("R15.12", "every use of secp256k1_context_verify reachable from a tool's main happens while an ECCVerifyHandle is alive (global object of the program, or a holder on every call path)")
+    unit_targets = {u["unit"]: set(u["targets"]) for u in fb.raw_units}
+    readers = [f for f in fb.funcs.values() if f.body is not None and not f.name.startswith("ECCVerifyHandle::") and
+               any(n["k"] == "ref" and n["n"] == "secp256k1_context_verify" and n.get("dk") == "global" for n in f.nodes())]
+    if not readers:
+        raise AnalysisBroken("R15.12: no function reads secp256k1_context_verify")
+
+    def has_handle(rec, depth=0):
+        if rec == "ECCVerifyHandle":
+            return True
+        r = fb.records.get(rec)
+        if r is None or depth > 3:
+            return False
+        return any(has_handle(fl.get("ct") or "", depth + 1) for fl in r.get("fields", []) if not (fl.get("ty") or "").rstrip().endswith("*"))
+    holders = set()
+    for f in fb.funcs.values():
+        if f.body is None:
+            continue
+        for n in f.nodes():
+            if n["k"] == "decl" and any(has_handle(d.get("ct") or "") and not (d.get("ty") or "").rstrip().endswith(("*", "&")) for d in n["decls"]):
+                holders.add(f.id)
+    for m in mains:
+        prog_name = m.file.rsplit(".", 1)[0]
+        units = {u for u, t in unit_targets.items() if prog_name in t or "libbitcoin_a" in t or "libbitcoin" in " ".join(t)}
+        glob = [v for vs in fb.vars_by_name.values() for v in vs if v.get("unit") in units and prog_name in unit_targets.get(v.get("unit"), set()) and has_handle(v.get("ct") or "")]
+        reach_all = prog.reachable([m])
+        used = [r for r in readers if r.id in reach_all]
+        ctx.site(len(used))
+        if not used:
+            ctx.ok("R15.12", "verify-context@" + m.file, m.loc(), "%s never reaches a user of the verification context" % prog_name)
+            continue
+        if glob:
+            ctx.ok("R15.12", "verify-context@" + m.file, m.loc(), "%s links the global `%s` (%s), which holds an ECCVerifyHandle for the whole run" % (prog_name, glob[0]["name"], glob[0].get("ct")))
+            continue
+        seen = prog.reachable([m], stop=holders)
+        bare = [r for r in used if r.id in seen and r.id not in holders]
+        ctx.inst(not bare, "R15.12", "verify-context@" + m.file, m.loc(),
+                 "every path from %s's main to a user of the verification context passes a function holding an ECCVerifyHandle" % prog_name,
+                 "%s reaches %s without any ECCVerifyHandle alive (no global holder is linked into %s): secp256k1_context_verify is null there - assertion failure / null context: %s"
+                 % (prog_name, bare[0].name if bare else "", prog_name, " -> ".join(prog.chain(seen, bare[0].id)[:8]) if bare else ""))
     # ---------------------------------------------------------------- R15.6 / R15.8 (shared with C17)
     from .. import report
     sub = report.Ctx("C17", ctx.tier, fb, prog, ctx.seed)
@@ -777,6 +818,7 @@ def callers_establish(fb, prog, ctor, a, K):
 
 
 MUTANTS = [
+    dict(name="verify-context-not-created-in-btcc", file="value.cpp", find="    static ECCVerifyHandle verify_handle;\n", replace="", expect=["R15.12:verify-context@btcc.cpp"]),
     dict(name="p2sh-empty-stack-assert", file="debugger/interpreter.cpp", find="            if (env.p2shstack.empty())\n                return set_error(serror, SCRIPT_ERR_INVALID_STACK_OPERATION);\n", replace="            assert(!env.p2shstack.empty());\n", expect=["R15.11:assert@"]),
     dict(name="instance-dtor-deletes-shared-tce", file="instance.h", find="        delete env;\n", replace="        delete env;\n        delete tce;\n", expect=["R15.2:single-owner=InterpreterEnv::tce<-Instance::tce"]),
     dict(name="delete-strdup-memory", file="instance.cpp", find="        free(const_cast<char*>(push_del.back()));", replace="        delete push_del.back();", expect=["R15.2:dealloc=Instance::configure_tx_txin"]),
